@@ -41,6 +41,8 @@ type Solver struct {
 	Stats     SolverStats
 	TimeoutMs int
 	Log       io.Writer
+	LogChecks int // number of check-sat commands logged so far
+	LogLimit  int // stop logging after this many check-sat commands (0 = no limit)
 }
 
 type SolverStats struct {
@@ -122,7 +124,7 @@ func (s *Solver) Reset() {
 }
 
 func (s *Solver) send(line string) {
-	if s.Log != nil {
+	if s.Log != nil && (s.LogLimit == 0 || s.LogChecks < s.LogLimit) {
 		fmt.Fprintln(s.Log, line)
 	}
 	io.WriteString(s.in, line)
@@ -268,6 +270,10 @@ func (s *Solver) Check() Verdict {
 		}
 		break
 	}
+	if s.Log != nil && (s.LogLimit == 0 || s.LogChecks < s.LogLimit) {
+		fmt.Fprintf(s.Log, ";; verdict %s\n", v)
+	}
+	s.LogChecks++
 	d := time.Since(t0)
 	s.Stats.Time += d
 	if d > s.Stats.MaxQuery {
